@@ -30,7 +30,7 @@ from harness.gnpy_util import NONE
 
 BOUNDS = {
     # tier -> list of MC runs (MaxSpans, LossSet, MultiUser, Rich, replay stride for profiles with >1 span)
-    'quick': [dict(max_spans=2, losses='MCLossesQuick', multi=False, rich=True, stride1=4, stride2=19, propagate_every=2)],
+    'quick': [dict(max_spans=2, losses='MCLossesQuick', multi=False, rich=True, stride1=5, stride2=24, propagate_every=2)],
     'thorough': [dict(max_spans=3, losses='MCLossesQuick', multi=False, rich=True, stride1=1, stride2=8, propagate_every=3),
                  dict(max_spans=2, losses='MCLossesFull', multi=False, rich=False, stride1=1, stride2=3, propagate_every=3),
                  dict(max_spans=1, losses='MCLossesFull', multi=True, rich=False, stride1=3, stride2=1, propagate_every=3)],
@@ -81,19 +81,25 @@ def equipment_for(cfg, oms):
 def spans_for(oms):
     """raw span loss R (dB) -> real line elements.  Odd spans: one fibre; even spans: fibre + 0.5 dB Fused + fibre (EOL
     only on the last fibre); a span below the padding of a profile with the -17.5 dBm ROADM target carries an
-    operator att_in of 1.5 dB.  Default connectors 2 x 0.25 dB per fibre, EOL 0.5 dB."""
+    operator att_in of 1.5 dB; the lumped part of the raw loss is a lumped_losses entry at the middle of the (last)
+    fibre.  Default connectors 2 x 0.25 dB per fibre, EOL 0.5 dB."""
     spans, att = [], False
     behind = oms['amps'] if oms['ing'] == 1 else oms['amps'][1:]        # amplifiers that have a span in front of them
     for k, a in enumerate(behind, start=1):
         r = db(a['raw'])
         att_in = 1.5 if (r < 10 and oms['t0'] != -20000000) else 0
         att = att or att_in > 0
+        lump = db(a.get('lump', 0))          # part of the raw loss that sits inside the fibre as a lumped loss
+
+        def lumped(km):
+            return [{'position': round(km / 2, 3), 'loss': lump}] if lump > 0 else None
         if k % 2 == 1:
-            spans.append([dict(kind='fiber', length_km=(r - 1.0 - att_in) / 0.2, att_in=att_in)])
+            km = (r - 1.0 - att_in - lump) / 0.2
+            spans.append([dict(kind='fiber', length_km=km, att_in=att_in, lumped_losses=lumped(km))])
         else:
-            tot = (r - 2.0 - att_in) / 0.2
+            tot = (r - 2.0 - att_in - lump) / 0.2
             spans.append([dict(kind='fiber', length_km=0.4 * tot, att_in=att_in), dict(kind='fused', loss=0.5),
-                          dict(kind='fiber', length_km=0.6 * tot)])
+                          dict(kind='fiber', length_km=0.6 * tot, lumped_losses=lumped(0.6 * tot))])
     return spans, att
 
 
@@ -298,6 +304,9 @@ def run_b3(chk):
     # every shipped network as shipped; some also with the documented library option out_voa_auto switched on for every
     # model and the amplifiers turned into placeholders (no shipped library uses the option)
     corpus = [(n, t, e, x, tier, False, None, None) for n, t, e, x, tier in U.SHIPPED]
+    # lumped losses (splices, taps) inside every second fibre: no shipped topology has any
+    corpus += [(n + '-lumped', t, e, x, tier, 'lumped', None, None) for n, t, e, x, tier in U.SHIPPED
+               if n in ('meshV2', 'td_long', 'CORONET_CONUS')]
     corpus += [(n + '-autovoa', t, e, x, tier, True, {'out_voa_auto': True}, None) for n, t, e, x, tier in U.SHIPPED
                if n in ('meshV2', 'td_testTopology', 'CORONET_CONUS')]
     # lines that start at a transceiver, designed for a reference power that differs from the transmit power
@@ -308,7 +317,8 @@ def run_b3(chk):
             continue
         for mode in (True, False):
             try:
-                net, eq, ref, rec = U.design(topo, eqf, extra, power_mode=mode, strip=strip, edfa_attrs=attrs, si=si)
+                net, eq, ref, rec = U.design(topo, eqf, extra, power_mode=mode, strip=strip is True, lumped=strip == 'lumped',
+                                             edfa_attrs=attrs, si=si)
             except U.LoadError as e:
                 chk.cov.setdefault('b3_not_loadable', []).append(f'{name}: {str(e)[:80]}')
                 continue
@@ -361,7 +371,7 @@ def run(chk):
     n_cases = n_ok = 0
     exercised = dict(reduced=0, offset_kept=0, gain_kept=0, user_voa=0, padded=0, zero_before_roadm=0, in_voa=0,
                      bound_off_step=0, auto_voa_followed_by_amplifier=0, starts_at_transceiver=0,
-                     tx_power_differs_from_reference=0, two_auto_models_above_both_pmax=0)
+                     tx_power_differs_from_reference=0, two_auto_models_above_both_pmax=0, lumped_loss_in_span=0)
     for b in BOUNDS[chk.tier]:
         r = tlc.run('MC_DesignPower', cfg_text=mc_cfg(b), timeout=2400, tag='c09-mc')
         chk.add_mc(f'MC_DesignPower MaxSpans={b["max_spans"]} {b["losses"]} MultiUser={b["multi"]} Rich={b["rich"]}', r)
@@ -403,6 +413,7 @@ def run(chk):
                 exercised['padded'] += a['L'] != a['raw']
                 exercised['zero_before_roadm'] += a['nxt'] == 0 and a['uDp'] == NONE and not gk
                 exercised['in_voa'] += a['inVoa'] != 0
+                exercised['lumped_loss_in_span'] += a.get('lump', 0) > 0
             chk.case(k, nontrivial=True)
             if len(chk.samples) < 2 and any(a['kind'] in (5, 7) for a in js['oms']['amps']):
                 chk.sample(dict(kind='B2 TLC-designed OMS replayed into designed_network', cfg=cfg,
